@@ -10,6 +10,7 @@ import (
 	"runtime/metrics"
 	"strconv"
 	"testing"
+	"time"
 
 	"dst/qm"
 	"dst/sim"
@@ -93,6 +94,17 @@ func TestWorker(t *testing.T) {
 		out.Flush()
 		os.Exit(2)
 	}
+	// memory watchdog: nothing is collected during a run, so a run-away oracle must not take the machine down
+	go func() {
+		limit := uint64(envInt("DST_HARDHEAP_MB", 6000)) << 20
+		for {
+			time.Sleep(200 * time.Millisecond)
+			if heapBytes() > limit {
+				fmt.Fprintln(os.Stdout, `{"fatal":"worker heap exceeded the hard limit (no GC runs inside a simulated run)"}`)
+				os.Exit(3)
+			}
+		}
+	}()
 	mk := sim.Scenarios[prop]
 	if mk == nil {
 		fmt.Fprintf(out, "{\"fatal\":\"unknown property %s\"}\n", prop)
@@ -150,7 +162,18 @@ func TestWorker(t *testing.T) {
 		} else if j.Kind != "" {
 			plan = &sim.FaultPlan{Pos: j.Pos, Kind: j.Kind}
 		}
+		// wall-clock watchdog: a run that does not finish is a harness failure, never a verdict
+		runDone := make(chan struct{})
+		go func(id int) {
+			select {
+			case <-runDone:
+			case <-time.After(time.Duration(envInt("DST_RUN_WALL_S", 180)) * time.Second):
+				fmt.Fprintf(os.Stdout, "{\"fatal\":\"run (job %d) did not finish within the wall-clock limit: a goroutine is blocked non-durably (e.g. on a mutex held by a parked call)\"}\n", id)
+				os.Exit(4)
+			}
+		}(j.ID)
 		res := sim.RunScenario(t, mk(), tape, j.Seed*1000003+uint64(j.Run), known, plan)
+		close(runDone)
 		w := res.World
 		l := RunLine{Run: j.Run, Job: j.ID, Steps: res.Steps, Incs: res.Incs, Sim: res.SimSeconds, LogHash: res.LogHash,
 			StateHash: w.AbstractState(), Writes: w.CountWrites(), Hooks: len(w.Hooks), Faults: w.FaultsFired, Probes: w.Probes,
